@@ -1,7 +1,313 @@
-"""IEEE-754 kernel for the places where real floating point matters (DESIGN 2.2)."""
+"""IEEE-754 kernel: trace the real code on floating point / bit-vector terms and let an SMT
+solver (cvc5, z3 as fallback) decide the obligation for ALL inputs of a fixed-path computation.
+
+Unlike the forking engine this is a single-path ("concolic") tracer: every proxy carries a z3 term
+and a concrete shadow value for one sample input.  A branch on a proxy follows the shadow and
+records the branch condition; at the end the obligation is
+
+     for all inputs in range:   every recorded branch condition holds  AND  property(result)
+
+so inputs that would take a different path make the obligation fail (they are then replayed
+concretely).  Used for the time-of-day tail of C17 (to_oa_date / to_date on a fixed calendar day)."""
+import os
+import subprocess
+import tempfile
+import time
+
+import z3
+
 from symex.core import Unsupported
+
+RNE = z3.RNE()
+F64 = z3.Float64()
+W = 64
+
+TRACE = None
+
+
+class Trace:
+    def __init__(self):
+        self.conds = []        # z3 Bool terms that must hold for every input (path + side conditions)
+        self.vars = []         # (name, bv term, lo, hi)
+
+    def var(self, name, bits, lo, hi, shadow):
+        v = z3.BitVec(name, bits)
+        self.vars.append((name, v, lo, hi))
+        return BV(z3.ZeroExt(W - bits, v), shadow)
+
+    def range_constraints(self):
+        return [z3.And(z3.UGE(v, lo), z3.ULE(v, hi)) for _, v, lo, hi in self.vars]
+
+
+def start():
+    global TRACE
+    TRACE = Trace()
+    return TRACE
+
+
+def _fp_const(x):
+    return z3.FPVal(float(x), F64)
+
+
+class Cond:
+    """boolean with a term and a shadow; taking it as a Python bool records the path condition"""
+    __slots__ = ("t", "s")
+
+    def __init__(self, t, s):
+        self.t, self.s = t, bool(s)
+
+    def __bool__(self):
+        TRACE.conds.append(self.t if self.s else z3.Not(self.t))
+        return self.s
+
+
+class BV:
+    """signed 64-bit integer term with shadow"""
+    __slots__ = ("t", "s")
+
+    def __init__(self, t, s):
+        self.t, self.s = t, int(s)
+
+    @staticmethod
+    def lift(o):
+        if isinstance(o, BV):
+            return o
+        if isinstance(o, bool):
+            o = int(o)
+        if isinstance(o, int):
+            return BV(z3.BitVecVal(o, W), o)
+        return None
+
+    def _bin(self, o, ft, fs):
+        o = BV.lift(o)
+        if o is None:
+            return NotImplemented
+        return BV(ft(self.t, o.t), fs(self.s, o.s))
+
+    def __add__(self, o):
+        if isinstance(o, (float, FP)):
+            return self.to_fp() + o
+        return self._bin(o, lambda a, b: a + b, lambda a, b: a + b)
+
+    def __radd__(self, o):
+        if isinstance(o, (float, FP)):
+            return o + self.to_fp() if isinstance(o, FP) else FP.lift(o) + self.to_fp()
+        return self._bin(o, lambda a, b: b + a, lambda a, b: b + a)
+
+    def __sub__(self, o):
+        if isinstance(o, (float, FP)):
+            return self.to_fp() - o
+        return self._bin(o, lambda a, b: a - b, lambda a, b: a - b)
+
+    def __rsub__(self, o):
+        if isinstance(o, (float, FP)):
+            return FP.lift(o) - self.to_fp()
+        return self._bin(o, lambda a, b: b - a, lambda a, b: b - a)
+
+    def __mul__(self, o):
+        if isinstance(o, (float, FP)):
+            return self.to_fp() * o
+        return self._bin(o, lambda a, b: a * b, lambda a, b: a * b)
+
+    __rmul__ = __mul__
+
+    def __neg__(self):
+        return BV(-self.t, -self.s)
+
+    def _nonneg(self):
+        TRACE.conds.append(self.t >= 0)       # side condition: floor/trunc division coincide
+
+    def __floordiv__(self, o):
+        if not (isinstance(o, int) and o > 0):
+            raise Unsupported("BV // non-constant")
+        self._nonneg()
+        return BV(z3.UDiv(self.t, z3.BitVecVal(o, W)), self.s // o)
+
+    def __mod__(self, o):
+        if not (isinstance(o, int) and o > 0):
+            raise Unsupported("BV % non-constant")
+        self._nonneg()
+        return BV(z3.URem(self.t, z3.BitVecVal(o, W)), self.s % o)
+
+    def __divmod__(self, o):
+        return (self // o, self % o)
+
+    def __truediv__(self, o):
+        return self.to_fp() / o
+
+    def to_fp(self):
+        return FP(z3.fpSignedToFP(RNE, self.t, F64), float(self.s))
+
+    def _cmp(self, o, ft, fs):
+        if isinstance(o, (float, FP)):
+            return self.to_fp()._cmp(o, ft, fs)
+        o = BV.lift(o)
+        if o is None:
+            return NotImplemented
+        return Cond(ft(self.t, o.t), fs(self.s, o.s))
+
+    def __lt__(self, o): return self._cmp(o, lambda a, b: a < b, lambda a, b: a < b)
+    def __le__(self, o): return self._cmp(o, lambda a, b: a <= b, lambda a, b: a <= b)
+    def __gt__(self, o): return self._cmp(o, lambda a, b: a > b, lambda a, b: a > b)
+    def __ge__(self, o): return self._cmp(o, lambda a, b: a >= b, lambda a, b: a >= b)
+    def __eq__(self, o): return self._cmp(o, lambda a, b: a == b, lambda a, b: a == b)
+    def __ne__(self, o): return self._cmp(o, lambda a, b: a != b, lambda a, b: a != b)
+    def __hash__(self): return hash(self.s)
+
+    def pin(self):
+        """record `term == shadow` as a condition and continue with the plain int"""
+        TRACE.conds.append(self.t == z3.BitVecVal(self.s, W))
+        return self.s
+
+    def __index__(self):
+        return self.pin()
+
+    __int__ = __index__
+    def __trunc__(self): return self
+    def __floor__(self): return self
+    def __round__(self, n=None): return self
+    def __repr__(self): return "BV(%d)" % self.s
+    def __plain__(self): return self.s
+
+
+class FP:
+    """IEEE double term with shadow"""
+    __slots__ = ("t", "s")
+
+    def __init__(self, t, s):
+        self.t, self.s = t, float(s)
+
+    @staticmethod
+    def lift(o):
+        if isinstance(o, FP):
+            return o
+        if isinstance(o, BV):
+            return o.to_fp()
+        if isinstance(o, (int, float)) and not isinstance(o, bool):
+            if isinstance(o, int) and abs(o) > 2 ** 53:
+                raise Unsupported("int constant beyond 2^53 in float arithmetic")
+            return FP(_fp_const(o), float(o))
+        return None
+
+    def _bin(self, o, ft, fs):
+        o = FP.lift(o)
+        if o is None:
+            return NotImplemented
+        return FP(ft(self.t, o.t), fs(self.s, o.s))
+
+    def __add__(self, o): return self._bin(o, lambda a, b: z3.fpAdd(RNE, a, b), lambda a, b: a + b)
+    def __radd__(self, o): return self._bin(o, lambda a, b: z3.fpAdd(RNE, b, a), lambda a, b: b + a)
+    def __sub__(self, o): return self._bin(o, lambda a, b: z3.fpSub(RNE, a, b), lambda a, b: a - b)
+    def __rsub__(self, o): return self._bin(o, lambda a, b: z3.fpSub(RNE, b, a), lambda a, b: b - a)
+    def __mul__(self, o): return self._bin(o, lambda a, b: z3.fpMul(RNE, a, b), lambda a, b: a * b)
+    def __rmul__(self, o): return self._bin(o, lambda a, b: z3.fpMul(RNE, b, a), lambda a, b: b * a)
+    def __truediv__(self, o): return self._bin(o, lambda a, b: z3.fpDiv(RNE, a, b), lambda a, b: a / b)
+    def __rtruediv__(self, o): return self._bin(o, lambda a, b: z3.fpDiv(RNE, b, a), lambda a, b: b / a)
+    def __neg__(self): return FP(z3.fpNeg(self.t), -self.s)
+
+    def _cmp(self, o, ft, fs):
+        o = FP.lift(o)
+        if o is None:
+            return NotImplemented
+        m = {"lt": z3.fpLT, "le": z3.fpLEQ, "gt": z3.fpGT, "ge": z3.fpGEQ, "eq": z3.fpEQ}
+        return Cond(ft(self.t, o.t), fs(self.s, o.s))
+
+    def __lt__(self, o): return self._cmp(o, z3.fpLT, lambda a, b: a < b)
+    def __le__(self, o): return self._cmp(o, z3.fpLEQ, lambda a, b: a <= b)
+    def __gt__(self, o): return self._cmp(o, z3.fpGT, lambda a, b: a > b)
+    def __ge__(self, o): return self._cmp(o, z3.fpGEQ, lambda a, b: a >= b)
+    def __eq__(self, o): return self._cmp(o, z3.fpEQ, lambda a, b: a == b)
+    def __ne__(self, o): return self._cmp(o, lambda a, b: z3.Not(z3.fpEQ(a, b)), lambda a, b: a != b)
+    def __hash__(self): return hash(self.s)
+
+    def _to_int(self, rm, shadow):
+        import math
+        r = z3.fpRoundToIntegral(rm, self.t)
+        return BV(z3.fpToSBV(rm, r, z3.BitVecSort(W)), shadow)
+
+    def __floor__(self):
+        import math
+        return self._to_int(z3.RTN(), math.floor(self.s))
+
+    def __ceil__(self):
+        import math
+        return self._to_int(z3.RTP(), math.ceil(self.s))
+
+    def __trunc__(self):
+        import math
+        return self._to_int(z3.RTZ(), math.trunc(self.s))
+
+    __int__ = __trunc__
+
+    def __round__(self, n=None):
+        if n is not None:
+            raise Unsupported("round(x, n) on symbolic float")
+        return self._to_int(z3.RNE(), round(self.s))
+
+    def __repr__(self): return "FP(%r)" % self.s
+    def __plain__(self): return self.s
+
+
+def register():
+    """let the shims treat the kernel's proxies as symbolic values"""
+    import symex.proxies as p
+    if BV not in p.SYM_TYPES:
+        p.SYM_TYPES = p.SYM_TYPES + (BV, FP)
+
+
+# ---- deciding the obligation -------------------------------------------------------------------
+def decide(trace, goal, timeout_s=600):
+    """is (ranges -> all conds and goal) valid?  returns ('unsat'|'sat'|'unknown', model or None, stats)"""
+    s = z3.Solver()
+    for c in trace.range_constraints():
+        s.add(c)
+    ok = z3.And(trace.conds + [goal]) if trace.conds else goal
+    s.add(z3.Not(ok))
+    smt = "(set-logic QF_BVFP)\n" + s.to_smt2()
+    stats = {"conds": len(trace.conds), "solver": None, "seconds": 0.0}
+    t0 = time.time()
+    res, model = "unknown", None
+    # cvc5 first (decides these obligations in minutes where z3 does not)
+    try:
+        with tempfile.NamedTemporaryFile("w", suffix=".smt2", delete=False) as f:
+            f.write(smt.replace("(check-sat)", "(check-sat)\n(get-model)"))
+            fn = f.name
+        try:
+            p = subprocess.run(["cvc5", "--produce-models", "--tlimit=%d" % (timeout_s * 1000), fn],
+                               capture_output=True, text=True, timeout=timeout_s + 30)
+            out = p.stdout.strip().splitlines()
+            if out and out[0] in ("sat", "unsat"):
+                res = out[0]
+                stats["solver"] = "cvc5"
+                if res == "sat":
+                    model = _parse_cvc5_model(p.stdout, trace)
+        finally:
+            os.unlink(fn)
+    except (OSError, subprocess.TimeoutExpired):
+        pass
+    if res == "unknown":
+        s.set("timeout", int(timeout_s * 1000))
+        r = s.check()
+        if r == z3.sat:
+            res, stats["solver"] = "sat", "z3"
+            m = s.model()
+            model = {name: m.eval(v, model_completion=True).as_long() for name, v, _, _ in trace.vars}
+        elif r == z3.unsat:
+            res, stats["solver"] = "unsat", "z3"
+    stats["seconds"] = round(time.time() - t0, 2)
+    return res, model, stats
+
+
+def _parse_cvc5_model(text, trace):
+    import re
+    model = {}
+    for name, v, _, _ in trace.vars:
+        m = re.search(r"\(define-fun %s \(\) \(_ BitVec \d+\) #([bx])([0-9a-fA-F]+)\)" % re.escape(name), text)
+        if m:
+            model[name] = int(m.group(2), 2 if m.group(1) == "b" else 16)
+    return model
 
 
 def int_truediv(a, b):
-    """a / b for ints (at least one symbolic), b != 0"""
-    raise Unsupported("int / int through floats (FP kernel not enabled for this harness)")
+    """a / b for engine ints (SymInt): real floating point is not modelled in the forking engine"""
+    raise Unsupported("int / int through floats (only modelled by the FP kernel)")
